@@ -631,6 +631,26 @@ func (e *Engine) directWrites(f *ssa.Function, in ssa.Instruction, d *modSet) {
 			return
 		}
 		callee := cc.StaticCallee()
+		if callee != nil {
+			if b := e.ld.ByFn[callee]; b != nil {
+				for _, g := range b.GhostInc {
+					// an event guarded by `<param> != ""` does not fire when the
+					// argument is the constant empty string
+					fires := true
+					for i, pn := range b.ParamNames {
+						if strings.TrimSpace(g.Text) == pn+` != ""` && i < len(cc.Args) {
+							if k, ok := cc.Args[i].(*ssa.Const); ok && k.Value != nil && k.Value.ExactString() == `""` {
+								fires = false
+							}
+						}
+					}
+					if fires {
+						d.keys["G|"+g.Callee] = true
+						e.keySorts["G|"+g.Callee] = ArrSort(SInt, SInt)
+					}
+				}
+			}
+		}
 		if callee != nil && strings.HasPrefix(callee.String(), "(*bufio.Reader).") {
 			d.keys[ghostCanUnread] = true
 			e.keySorts[ghostCanUnread] = ArrSort(SInt, SBool)
